@@ -1,12 +1,18 @@
 """`_data_sourcing/microgrid_api_source.py` -> Lean tables.
 
-Extracted (pure `ast`):
-  * the four `_<X>DataMethods` dicts: `ComponentMetricId.NAME -> lambda msg: msg.attr` / `msg.attr[i]`
-    as `List (String × FieldRef)` in source (dict insertion) order;
-  * the dispatch of `_get_data_extraction_method` (category -> table used to build the samples);
-  * the dispatch of `_check_requested_component_and_metrics` / `_check_*_request`
-    (category -> table the request is validated against, API stream method that is opened).
-Anything that does not have exactly this shape makes the extractor raise.
+Extracted (pure `ast`), located by ROLE, not by name or statement position:
+  * metric tables: every module-level dict literal whose keys are `ComponentMetricId.<NAME>` and whose values are
+    one-argument extraction functions `lambda msg: msg.attr` / `msg.attr[i]` (a `**other_table` entry is merged in
+    place), as `List (String × FieldRef)` in dict order;
+  * the *extraction dispatch* (`_get_data_extraction_method` on the pinned tree): the function that selects a metric
+    table by component category and never opens an API stream  =>  category -> table;
+  * the *check dispatch* (`_check_requested_component_and_metrics` + its `_check_*_request` helpers): the function
+    whose category branches (directly or through helpers of the same module) open an API stream `*_data(...)`
+    =>  category -> (table the metrics are validated against, API stream method).
+A category dispatch may be written as an `if`/`elif` chain (`==`, `is`, `in (…)`, `or`, either operand order,
+`!=` with the branches swapped), as `match … case ComponentCategory.X [| …]:`, or as a dict literal
+`{ComponentCategory.X: <table>, …}` (local or module level).  Anything that cannot be read this way makes the
+extractor raise.
 """
 from __future__ import annotations
 
@@ -15,6 +21,8 @@ import pathlib
 
 NAME = "DataSourcing"
 SOURCES = ["src/frequenz/sdk/microgrid/_data_sourcing/microgrid_api_source.py"]
+
+FuncDef = (ast.FunctionDef, ast.AsyncFunctionDef)
 
 
 class Unsupported(Exception):
@@ -27,22 +35,31 @@ def _lean_str(s: str) -> str:
     return '"' + s + '"'
 
 
-def _metric_name(node: ast.expr) -> str:
-    if isinstance(node, ast.Attribute) and isinstance(node.value, ast.Name) and node.value.id == "ComponentMetricId":
+def _enum_member(node: ast.expr, enum: str) -> str | None:
+    if isinstance(node, ast.Attribute) and isinstance(node.value, ast.Name) and node.value.id == enum:
         return node.attr
-    raise Unsupported(f"table key is not ComponentMetricId.<NAME>: {ast.dump(node)[:80]}")
+    return None
 
 
-def _field_ref(node: ast.expr) -> tuple[str, int | None]:
+# ---- metric tables ---------------------------------------------------------------------------------------------
+def _field_ref(node: ast.expr, helpers: dict[str, ast.FunctionDef]) -> tuple[str, int | None]:
+    """`lambda m: m.attr` / `lambda m: m.attr[i]`, or the name of a one-argument module function doing the same."""
+    if isinstance(node, ast.Name) and node.id in helpers:
+        fn = helpers[node.id]
+        body = [s for s in fn.body if not (isinstance(s, ast.Expr) and isinstance(s.value, ast.Constant))]
+        if len(fn.args.args) == 1 and len(body) == 1 and isinstance(body[0], ast.Return) and body[0].value is not None:
+            return _attr_index(body[0].value, fn.args.args[0].arg)
+        raise Unsupported(f"extraction helper {node.id} is not a single return of <arg>.<attr>[<int>]")
     if not isinstance(node, ast.Lambda) or len(node.args.args) != 1 or node.args.defaults or node.args.kwonlyargs:
         raise Unsupported("table value is not a one-argument lambda")
-    arg = node.args.args[0].arg
-    body = node.body
+    return _attr_index(node.body, node.args.args[0].arg)
 
+
+def _attr_index(body: ast.expr, arg: str) -> tuple[str, int | None]:
     def attr_of(n: ast.expr) -> str:
         if isinstance(n, ast.Attribute) and isinstance(n.value, ast.Name) and n.value.id == arg:
             return n.attr
-        raise Unsupported(f"lambda body is not <arg>.<attr>[<int>]: {ast.dump(n)[:80]}")
+        raise Unsupported(f"extraction body is not <arg>.<attr>[<int>]: {ast.dump(n)[:80]}")
 
     if isinstance(body, ast.Subscript):
         idx = body.slice
@@ -53,39 +70,128 @@ def _field_ref(node: ast.expr) -> tuple[str, int | None]:
     return attr_of(body), None
 
 
-def _tables(mod: ast.Module) -> dict[str, list[tuple[str, tuple[str, int | None]]]]:
-    out: dict[str, list] = {}
+def _module_assignments(mod: ast.Module) -> list[tuple[str, ast.expr]]:
+    out = []
     for st in mod.body:
-        target = value = None
-        if isinstance(st, ast.AnnAssign) and isinstance(st.target, ast.Name):
-            target, value = st.target.id, st.value
+        if isinstance(st, ast.AnnAssign) and isinstance(st.target, ast.Name) and st.value is not None:
+            out.append((st.target.id, st.value))
         elif isinstance(st, ast.Assign) and len(st.targets) == 1 and isinstance(st.targets[0], ast.Name):
-            target, value = st.targets[0].id, st.value
-        if target and target.endswith("DataMethods"):
-            if not isinstance(value, ast.Dict):
-                raise Unsupported(f"{target} is not a dict literal")
-            rows = []
-            for k, v in zip(value.keys, value.values):
-                if k is None:
-                    raise Unsupported(f"{target}: dict unpacking")
-                rows.append((_metric_name(k), _field_ref(v)))
-            names = [r[0] for r in rows]
-            if len(set(names)) != len(names):
-                raise Unsupported(f"{target}: duplicate key (later entry silently wins in Python)")
-            out[target] = rows
-    if not out:
-        raise Unsupported("no *DataMethods tables found")
+            out.append((st.targets[0].id, st.value))
     return out
 
 
-def _category(node: ast.expr, var: str) -> str:
-    """`<var> == ComponentCategory.X` -> "X"."""
-    if (isinstance(node, ast.Compare) and len(node.ops) == 1 and isinstance(node.ops[0], ast.Eq)
-            and isinstance(node.left, ast.Name) and node.left.id == var):
-        c = node.comparators[0]
-        if isinstance(c, ast.Attribute) and isinstance(c.value, ast.Name) and c.value.id == "ComponentCategory":
-            return c.attr
-    raise Unsupported(f"condition is not `{var} == ComponentCategory.<X>`: {ast.dump(node)[:100]}")
+def _tables(mod: ast.Module) -> dict[str, list[tuple[str, tuple[str, int | None]]]]:
+    helpers = {st.name: st for st in mod.body if isinstance(st, ast.FunctionDef)}
+    out: dict[str, list] = {}
+    for target, value in _module_assignments(mod):
+        if not isinstance(value, ast.Dict) or not value.keys:
+            continue
+        plain = [k for k in value.keys if k is not None]
+        if not plain or not all(_enum_member(k, "ComponentMetricId") for k in plain):
+            continue  # not a metric table
+        rows: list[tuple[str, tuple[str, int | None]]] = []
+        for k, v in zip(value.keys, value.values):
+            if k is None:  # `**other_table`
+                if isinstance(v, ast.Name) and v.id in out:
+                    new = out[v.id]
+                else:
+                    raise Unsupported(f"{target}: `**` of something that is not an earlier metric table")
+            else:
+                new = [(_enum_member(k, "ComponentMetricId"), _field_ref(v, helpers))]
+            for name, ref in new:  # a later duplicate key replaces the value and keeps the position
+                pos = next((i for i, (n, _) in enumerate(rows) if n == name), None)
+                if pos is None:
+                    rows.append((name, ref))
+                else:
+                    rows[pos] = (name, ref)
+        out[target] = rows
+    if not out:
+        raise Unsupported("no metric tables (dict literals keyed by ComponentMetricId.<NAME>) found")
+    return out
+
+
+# ---- category dispatch -----------------------------------------------------------------------------------------
+def _cats_of_test(test: ast.expr) -> tuple[list[str], bool, str | None]:
+    """(categories, negated, dump of the tested subject) of an `if` condition; ([], …) when it is not about categories."""
+    if isinstance(test, ast.UnaryOp) and isinstance(test.op, ast.Not):
+        cats, neg, subj = _cats_of_test(test.operand)
+        return cats, not neg, subj
+    if isinstance(test, ast.BoolOp) and isinstance(test.op, ast.Or):
+        cats: list[str] = []
+        subj = None
+        for v in test.values:
+            c, neg, s = _cats_of_test(v)
+            if not c or neg or (subj is not None and s != subj):
+                return [], False, None
+            cats += c
+            subj = s
+        return cats, False, subj
+    if isinstance(test, ast.Compare) and len(test.ops) == 1:
+        op, left, right = test.ops[0], test.left, test.comparators[0]
+        if isinstance(op, (ast.Eq, ast.Is, ast.NotEq, ast.IsNot)):
+            neg = isinstance(op, (ast.NotEq, ast.IsNot))
+            for a, b in ((left, right), (right, left)):
+                c = _enum_member(b, "ComponentCategory")
+                if c is not None and _enum_member(a, "ComponentCategory") is None:
+                    return [c], neg, ast.dump(a)
+        if isinstance(op, (ast.In, ast.NotIn)) and isinstance(right, (ast.Tuple, ast.List, ast.Set)):
+            cs = [_enum_member(e, "ComponentCategory") for e in right.elts]
+            if cs and all(cs):
+                return list(cs), isinstance(op, ast.NotIn), ast.dump(left)  # type: ignore[arg-type]
+    return [], False, None
+
+
+def _cats_of_pattern(pat: ast.pattern) -> list[str] | None:
+    """Categories of a `case` pattern; [] for the wildcard; None when unreadable."""
+    if isinstance(pat, ast.MatchValue):
+        c = _enum_member(pat.value, "ComponentCategory")
+        return [c] if c else None
+    if isinstance(pat, ast.MatchOr):
+        out: list[str] = []
+        for p in pat.patterns:
+            c = _cats_of_pattern(p)
+            if not c:
+                return None
+            out += c
+        return out
+    if isinstance(pat, ast.MatchAs) and pat.pattern is None:
+        return []
+    return None
+
+
+def _branches(stmts: list[ast.stmt], subjects: set[str]) -> list[tuple[list[str], list[ast.stmt]]]:
+    """Flatten the category dispatch found in `stmts` into [(categories, branch body)], in source order."""
+    out: list[tuple[list[str], list[ast.stmt]]] = []
+    for st in stmts:
+        if isinstance(st, ast.If):
+            cats, neg, subj = _cats_of_test(st.test)
+            if cats:
+                subjects.add(subj or "")
+                if neg:   # `if cat != X: <rest> else: <branch>`
+                    out.append((cats, st.orelse))
+                    out += _branches(st.body, subjects)
+                else:
+                    out.append((cats, st.body))
+                    out += _branches(st.orelse, subjects)
+            else:         # a guard that is not about the category
+                out += _branches(st.body, subjects) + _branches(st.orelse, subjects)
+        elif isinstance(st, ast.Match):
+            readable = [(_cats_of_pattern(c.pattern), c) for c in st.cases]
+            if any(cs for cs, _ in readable):
+                subjects.add(ast.dump(st.subject))
+                for cs, case in readable:
+                    if cs is None or case.guard is not None:
+                        raise Unsupported("match on the category with a pattern/guard that cannot be read")
+                    if cs:
+                        out.append((cs, case.body))
+            else:
+                for _, case in readable:
+                    out += _branches(case.body, subjects)
+        elif isinstance(st, (ast.Try,)):
+            out += _branches(st.body, subjects)
+        elif isinstance(st, (ast.With, ast.AsyncWith, ast.For, ast.AsyncFor, ast.While)):
+            out += _branches(st.body, subjects)
+    return out
 
 
 def _strip_doc(body: list[ast.stmt]) -> list[ast.stmt]:
@@ -94,85 +200,132 @@ def _strip_doc(body: list[ast.stmt]) -> list[ast.stmt]:
     return body
 
 
-def _if_chain(body: list[ast.stmt], var: str) -> list[tuple[str, list[ast.stmt]]]:
-    """Flatten `if c1: b1` `if c2: b2` … / `if … elif … else` into [(category, branch body)]."""
-    out: list[tuple[str, list[ast.stmt]]] = []
-
-    def walk(stmts: list[ast.stmt]) -> None:
-        for st in stmts:
-            if isinstance(st, ast.If):
-                if not any(isinstance(n, ast.Name) and n.id == var for n in ast.walk(st.test)):
-                    continue  # a guard that does not look at the category (e.g. `if comp_id in self.comp_data_receivers`)
-                out.append((_category(st.test, var), st.body))
-                if st.orelse:
-                    walk(st.orelse)
-            # anything else (error logging / raise for unknown categories) is the fall-through branch
-
-    walk(body)
+def _functions(mod: ast.Module) -> dict[str, ast.AST]:
+    """All functions/methods of the module by (unqualified) name, nested closures excluded."""
+    out: dict[str, ast.AST] = {}
+    for st in mod.body:
+        if isinstance(st, FuncDef):
+            out[st.name] = st
+        elif isinstance(st, ast.ClassDef):
+            for m in st.body:
+                if isinstance(m, FuncDef):
+                    out[m.name] = m
     return out
 
 
-def _find_method(mod: ast.Module, name: str) -> ast.AsyncFunctionDef | ast.FunctionDef:
-    for node in ast.walk(mod):
-        if isinstance(node, (ast.FunctionDef, ast.AsyncFunctionDef)) and node.name == name:
-            return node
-    raise Unsupported(f"method {name} not found")
+def _reach(nodes: list[ast.stmt], funcs: dict[str, ast.AST], tables: dict, seen: set[str]) -> tuple[list[str], list[str]]:
+    """(metric tables referenced, `*_data` API calls) in `nodes`, following calls to functions of the same module."""
+    tabs: list[str] = []
+    apis: list[str] = []
+    for st in nodes:
+        for n in ast.walk(st):
+            if isinstance(n, ast.Name) and n.id in tables and n.id not in tabs:
+                tabs.append(n.id)
+            if isinstance(n, ast.Call):
+                f = n.func
+                callee = None
+                if isinstance(f, ast.Attribute):
+                    if f.attr.endswith("_data") and f.attr not in funcs and f.attr not in apis:
+                        apis.append(f.attr)
+                    if isinstance(f.value, ast.Name) and f.value.id in ("self", "cls"):
+                        callee = f.attr
+                elif isinstance(f, ast.Name):
+                    callee = f.id
+                if callee in funcs and callee not in seen:
+                    seen.add(callee)
+                    t2, a2 = _reach(funcs[callee].body, funcs, tables, seen)  # type: ignore[attr-defined]
+                    tabs += [t for t in t2 if t not in tabs]
+                    apis += [a for a in a2 if a not in apis]
+    return tabs, apis
 
 
-def _extraction_dispatch(mod: ast.Module, tables: dict) -> list[tuple[str, str]]:
-    fn = _find_method(mod, "_get_data_extraction_method")
-    args = [a.arg for a in fn.args.args]
-    if len(args) != 3:
-        raise Unsupported("_get_data_extraction_method: expected (self, category, metric)")
-    cat_var, metric_var = args[1], args[2]
-    rows = []
-    for cat, body in _if_chain(_strip_doc(fn.body), cat_var):
-        if len(body) != 1 or not isinstance(body[0], ast.Return):
-            raise Unsupported("_get_data_extraction_method: branch is not a single return")
-        r = body[0].value
-        if not (isinstance(r, ast.Subscript) and isinstance(r.value, ast.Name) and r.value.id in tables
-                and isinstance(r.slice, ast.Name) and r.slice.id == metric_var):
-            raise Unsupported("_get_data_extraction_method: branch does not return <table>[metric]")
-        rows.append((cat, r.value.id))
-    if not rows:
-        raise Unsupported("_get_data_extraction_method: no category branches")
-    return rows
+def _category_dicts(scope: list[ast.stmt] | ast.Module, tables: dict) -> list[list[tuple[str, str]]]:
+    """Dict literals `{ComponentCategory.X: <table name>, …}` inside `scope`."""
+    nodes = scope.body if isinstance(scope, ast.Module) else scope
+    out = []
+    for st in nodes:
+        if isinstance(scope, ast.Module) and isinstance(st, (ast.ClassDef, *FuncDef)):
+            continue
+        for n in ast.walk(st):
+            if isinstance(n, ast.Dict) and n.keys and all(k is not None and _enum_member(k, "ComponentCategory") for k in n.keys):
+                if all(isinstance(v, ast.Name) and v.id in tables for v in n.values):
+                    out.append([(_enum_member(k, "ComponentCategory"), v.id) for k, v in zip(n.keys, n.values)])  # type: ignore[union-attr,arg-type]
+    return out
 
 
-def _check_dispatch(mod: ast.Module, tables: dict) -> list[tuple[str, str, str]]:
-    fn = _find_method(mod, "_check_requested_component_and_metrics")
-    args = [a.arg for a in fn.args.args]
-    if len(args) != 4:
-        raise Unsupported("_check_requested_component_and_metrics: expected (self, comp_id, category, requests)")
-    rows = []
-    for cat, body in _if_chain(_strip_doc(fn.body), args[2]):
-        calls = [n for st in body for n in ast.walk(st)
-                 if isinstance(n, ast.Call) and isinstance(n.func, ast.Attribute)
-                 and isinstance(n.func.value, ast.Name) and n.func.value.id == "self"]
-        if len(calls) != 1:
-            raise Unsupported("_check_requested_component_and_metrics: branch is not one self._check_*_request call")
-        helper = _find_method(mod, calls[0].func.attr)
-        used_tables = sorted({n.id for n in ast.walk(helper) if isinstance(n, ast.Name) and n.id in tables})
-        api = sorted({n.func.attr for n in ast.walk(helper)
-                      if isinstance(n, ast.Call) and isinstance(n.func, ast.Attribute) and n.func.attr.endswith("_data")})
-        if len(used_tables) != 1 or len(api) != 1:
-            raise Unsupported(f"{helper.name}: expected exactly one table and one *_data call, got {used_tables} {api}")
-        rows.append((cat, used_tables[0], api[0]))
-    if not rows:
-        raise Unsupported("_check_requested_component_and_metrics: no category branches")
-    return rows
+def _dispatches(mod: ast.Module, tables: dict) -> tuple[list[tuple[str, str]], list[tuple[str, str, str]]]:
+    funcs = _functions(mod)
+    module_dicts: dict[str, list[tuple[str, str]]] = {}
+    for target, value in _module_assignments(mod):
+        if isinstance(value, ast.Dict):
+            ds = _category_dicts([ast.Expr(value)], tables)
+            if ds:
+                module_dicts[target] = ds[0]
+    extraction: list[tuple[str, list[tuple[str, str]]]] = []
+    check: list[tuple[str, list[tuple[str, str, str]]]] = []
+    for name, fn in funcs.items():
+        body = _strip_doc(fn.body)  # type: ignore[attr-defined]
+        subjects: set[str] = set()
+        brs = _branches(body, subjects)
+        if brs:
+            if len(subjects) != 1:
+                raise Unsupported(f"{name}: category tests on different expressions")
+            rows_e: list[tuple[str, str]] = []
+            rows_c: list[tuple[str, str, str]] = []
+            kinds = set()
+            for cats, bbody in brs:
+                tabs, apis = _reach(bbody, funcs, tables, {name})
+                if apis:
+                    if len(tabs) != 1 or len(apis) != 1:
+                        raise Unsupported(f"{name}: a category branch must use exactly one metric table and open "
+                                          f"exactly one API stream, got {tabs} {apis}")
+                    kinds.add("check")
+                    rows_c += [(c, tabs[0], apis[0]) for c in cats]
+                elif tabs:
+                    if len(tabs) != 1:
+                        raise Unsupported(f"{name}: a category branch refers to several metric tables {tabs}")
+                    kinds.add("extract")
+                    rows_e += [(c, tabs[0]) for c in cats]
+                else:
+                    kinds.add("other")   # e.g. a branch that only raises
+            if kinds == {"check"} or kinds == {"check", "other"}:
+                check.append((name, rows_c))
+            elif kinds == {"extract"} or kinds == {"extract", "other"}:
+                extraction.append((name, rows_e))
+            elif "check" in kinds and "extract" in kinds:
+                raise Unsupported(f"{name}: mixes stream-opening and table-selecting category branches")
+            continue
+        # dict-literal dispatch: `{ComponentCategory.X: table, …}[category][metric]`, local or module level
+        ds = _category_dicts(body, tables)
+        ds += [module_dicts[n.id] for st in body for n in ast.walk(st) if isinstance(n, ast.Name) and n.id in module_dicts]
+        if ds:
+            _, apis = _reach(body, funcs, tables, {name})
+            if apis or len(ds) != 1:
+                raise Unsupported(f"{name}: dict dispatch over categories that cannot be read")
+            extraction.append((name, ds[0]))
+    if len(extraction) != 1:
+        raise Unsupported(f"expected exactly one function selecting a metric table by category, found "
+                          f"{[n for n, _ in extraction]}")
+    if len(check) != 1:
+        raise Unsupported(f"expected exactly one function opening an API stream per category, found "
+                          f"{[n for n, _ in check]}")
+    fn = funcs[extraction[0][0]]
+    params = {a.arg for a in fn.args.args}  # type: ignore[attr-defined]
+    if not any(isinstance(n, ast.Subscript) and isinstance(n.slice, ast.Name) and n.slice.id in params
+               for n in ast.walk(fn)):
+        raise Unsupported(f"{extraction[0][0]}: the selected table is not subscripted by a parameter (the metric)")
+    return extraction[0][1], check[0][1]
 
 
 def _lean_name(table: str) -> str:
     core = table.strip("_")
-    return core[0].lower() + core[1:]
+    return "tbl_" + "".join(c if c.isalnum() else "_" for c in core)
 
 
 def generate(repo: pathlib.Path) -> str:
     mod = ast.parse((repo / SOURCES[0]).read_text())
     tables = _tables(mod)
-    ext = _extraction_dispatch(mod, tables)
-    chk = _check_dispatch(mod, tables)
+    ext, chk = _dispatches(mod, tables)
     out = [
         "/-! Metric tables and category dispatch of `MicrogridApiSource`. -/",
         "namespace Extracted.DataSourcing",
@@ -194,12 +347,12 @@ def generate(repo: pathlib.Path) -> str:
         out.append(",\n".join(body))
         out.append("]")
         out.append("")
-    out.append("/-- `_get_data_extraction_method`: `ComponentCategory` member name ↦ table, in source order. -/")
+    out.append("/-- Extraction dispatch: `ComponentCategory` member name ↦ table, in source order. -/")
     out.append("def extractionDispatch : List (String × List (String × FieldRef)) := [")
     out.append(",\n".join(f"  ({_lean_str(c)}, {_lean_name(t)})" for c, t in ext))
     out.append("]")
     out.append("")
-    out.append("/-- `_check_requested_component_and_metrics`: category ↦ (table the metrics are validated against,")
+    out.append("/-- Check dispatch: category ↦ (table the metrics are validated against,")
     out.append("    API client method whose stream is opened). -/")
     out.append("def checkDispatch : List (String × List (String × FieldRef) × String) := [")
     out.append(",\n".join(f"  ({_lean_str(c)}, {_lean_name(t)}, {_lean_str(a)})" for c, t, a in chk))
